@@ -417,6 +417,12 @@ func (t tcase) probes() []probe {
 		ps = append(ps, probe{src: v + ".kindOf?(" + rootName + ")", want: "true", what: "kindOf-builtin"})
 		ps = append(ps, probe{src: v + ".kindOf?(BaseObj)", want: "true", what: "kindOf-builtin"})
 	}
+	// the root prototype lists its own names like any object, and objects made from evaluated text (evalEnv) have
+	// public and private names like objects written as literals
+	if n == 1 {
+		ps = append(ps, probe{src: "[Obj.keys.has?(\"bro\"), v0.which('bro) == Obj, v0.which('bro).keys.has?(\"bro\"), Obj.keys.has?(\"bear\")]", want: "[true, true, true, false]", what: "keys-of-root-prototypes"})
+		ps = append(ps, probe{src: "\"ea := 1; _ep := 2; eb := 3\".evalEnv.{|ee| [ee.keys, ee.keys(private?: true), ee.values, ee.bear({z: 9}).ea, ee.bear({z: 9}).keys, ee.which('ea) == ee]}", want: `[["ea", "eb"], ["ea", "eb", "_ep"], [1, 3], 1, ["z"], true]`, what: "object-from-evaluated-text"})
+	}
 	for _, name := range []string{"a", "b", "c"} {
 		if len(lcRecv[name]) >= 2 {
 			ps = append(ps, probe{src: "[" + strings.Join(lcRecv[name], ", ") + "]@" + name + "(9, 8, 7)", want: "[" + strings.Join(lcWant[name], ", ") + "]", what: "list-chain-call"})
